@@ -4,7 +4,7 @@
    Statements: ProofsSystem.v (Reciprocals_stmt, Garner_stmt, Unique_stmt, Inverse_stmt, *_history_stmt,
    *_end_to_end_stmt, Functor_*_stmt). *)
 From Coq Require Import ZArith List.
-From C14 Require Import Model ProofsArith ProofsGarner ProofsSystem ProofsPoly ProofsBalanced.
+From C14 Require Import Model ProofsArith ProofsGarner ProofsSystem ProofsPoly ProofsBalanced ProofsFixed ProofsLift.
 Import ListNotations.
 Local Open Scope Z_scope.
 
@@ -30,6 +30,10 @@ Print Assumptions C14_dom_mixed_radix.
 (* uniqueness of the integer in [0, prod) with given residues *)
 Theorem C14_unique : Unique_stmt.                               Proof. exact unique. Qed.
 Print Assumptions C14_unique.
+(* the same statement without "pairwise coprime" is false (moduli 4, 6: 0 and 12): the hypothesis is necessary *)
+Theorem C14_unique_needs_coprime_refuted : ~ Unique_no_coprime_stmt.
+Proof. exact unique_needs_coprime. Qed.
+Print Assumptions C14_unique_needs_coprime_refuted.
 
 (* RingToRns and RnsToRing are mutually inverse (RnsToRing o RingToRns = reduction mod prod) *)
 Theorem C14_int_conversions_inverse : Inverse_stmt RnsToRing_int.   Proof. exact inverse_int. Qed.
@@ -37,16 +41,22 @@ Print Assumptions C14_int_conversions_inverse.
 Theorem C14_dom_conversions_inverse : Inverse_stmt RnsToRing_dom.   Proof. exact inverse_dom. Qed.
 Print Assumptions C14_dom_conversions_inverse.
 
-(* every answer of a system object is that of a freshly constructed one, for EVERY history of constructors,
-   copies, assignments, setPrimes and earlier calls (copy map as in the repaired source: _ck from _ck) *)
-Theorem C14_int_history_independent : Int_history_stmt FromCk.  Proof. exact int_history. Qed.
+(* every answer of a system object is that of a freshly constructed one, for EVERY history of constructors (plain,
+   templated converting, default), copies, assignments, setPrimes and earlier calls.  The two facts about the source the
+   statement depends on are read from /repo on every run: the copy constructor takes _ck from _ck (FromCk) and the
+   converting constructor leaves _ck empty (CkEmpty) *)
+Theorem C14_int_history_independent : Int_history_stmt FromCk CkEmpty.  Proof. exact int_history. Qed.
 Print Assumptions C14_int_history_independent.
 Theorem C14_dom_history_independent : Dom_history_stmt.         Proof. exact dom_history. Qed.
 Print Assumptions C14_dom_history_independent.
 (* the copy map _ck(R._primes) of the unrepaired constructor does not have the property *)
-Theorem C14_int_copy_from_primes_refuted : ~ Int_history_stmt FromPrimes.
+Theorem C14_int_copy_from_primes_refuted : ~ Int_history_stmt FromPrimes CkEmpty.
 Proof. exact int_history_from_primes_refuted. Qed.
 Print Assumptions C14_int_copy_from_primes_refuted.
+(* a converting constructor that sizes _ck in its initialiser list does not have it either (ComputeCk tests _ck.size()) *)
+Theorem C14_int_ctor_presized_refuted : ~ Int_history_stmt FromCk CkSized.
+Proof. exact int_history_presized_refuted. Qed.
+Print Assumptions C14_int_ctor_presized_refuted.
 
 (* end to end: any history, canonical residues: RnsToRing is THE integer of [0, prod) with these residues *)
 Theorem C14_int_end_to_end : Int_end_to_end_stmt.               Proof. exact int_end_to_end. Qed.
@@ -80,6 +90,19 @@ Print Assumptions C14_poly_crt.
 Theorem C14_balanced_domains : Balanced_stmt.   Proof. exact balanced. Qed.
 Print Assumptions C14_balanced_domains.
 
-(* RNSsystemFixed: one combination step of the product tree is exact (partial: the recursion over the tree is not proved) *)
-Theorem C14_fixed_pair_step_partial : Fixed_pair_stmt.   Proof. exact fixed_pair. Qed.
-Print Assumptions C14_fixed_pair_step_partial.
+(* RNSsystemFixed: one combination step of the product tree is exact ... *)
+Theorem C14_fixed_pair_step : Fixed_pair_stmt.   Proof. exact fixed_pair. Qed.
+Print Assumptions C14_fixed_pair_step.
+(* ... and so is the whole recursion RnsToRingLeft/RnsToRingRight over the stored tree followed by the inner unbalanced
+   RNSsystem, for EVERY number of primes >= 1 (any order, pairwise coprime, canonical residues): the result is in
+   [0, prod), has the given residues, and is the only such integer *)
+Theorem C14_fixed_tree : Fixed_tree_stmt.   Proof. exact fixed_tree_correct. Qed.
+Print Assumptions C14_fixed_tree.
+
+(* incremental lifting by the (repaired) two-modulus functor over any list of pairwise coprime moduli: every intermediate
+   value x_k is in [0, p_0 ... p_k) and has the residues r_0 .. r_k (any representatives); unique by C14_unique *)
+Theorem C14_lift_chain : Lift_chain_stmt cra_reduce_fixed.   Proof. exact lift_chain_correct. Qed.
+Print Assumptions C14_lift_chain.
+Theorem C14_lift_chain_unrepaired_refuted : ~ Lift_chain_stmt cra_reduce.
+Proof. exact lift_chain_unrepaired_refuted. Qed.
+Print Assumptions C14_lift_chain_unrepaired_refuted.
